@@ -41,6 +41,8 @@ STATES = [
     "commit-in-backoff",
     "idle-after-processing",
     "commit-in-flight-while-processing",
+    "offset-lookup-last-retry",
+    "fetch-last-retry",
 ]
 
 REQUIRED_LABELS = [
@@ -106,6 +108,14 @@ def jobs(tier):
                     pass
                 if state == "auto-commit-in-flight" and cfg == "nogroup":
                     continue
+                if state.endswith("-last-retry"):
+                    # the request that is outstanding is the last attempt request_retry_max_attempts allows (shutdown() itself
+                    # lowers an unlimited consumer to 2 attempts)
+                    if cfg == "ms":
+                        continue
+                    for limit in (2,) if action == "stop" else (2, 0):
+                        out.append({"state": state, "action": action, "cfg": cfg, "K": 5 if q else 7, "retry_limit": limit})
+                    continue
                 out.append({"state": state, "action": action, "cfg": cfg, "K": 6 if q else 8})
     return out
 
@@ -136,7 +146,7 @@ def scenario(job):
         w.async_proc = state != "inside-processor-sync"
         w.committed = []
         w.explicit_stop = False
-        ctx.sig("state=%s action=%s cfg=%s" % (state, action, cfg))
+        ctx.sig("state=%s action=%s cfg=%s%s" % (state, action, cfg, "" if "retry_limit" not in job else " retry_limit=%d" % job["retry_limit"]))
 
         def do_action():
             try:
@@ -178,6 +188,8 @@ def scenario(job):
             kw = dict(consumer_group="g", auto_commit_every_n=1, auto_commit_every_ms=0)
         elif cfg == "ms":
             kw = dict(consumer_group="g", auto_commit_every_n=0, auto_commit_every_ms=5000)
+        if "retry_limit" in job:
+            kw["request_retry_max_attempts"] = job["retry_limit"]
         w.consumer = c = Consumer(w.client, TOPIC, PART, processor, **kw)
         w.res = []
 
@@ -202,10 +214,18 @@ def scenario(job):
             d.callback(None)
 
         # ------------------------------------------------------------------ prefixes
-        start = offs[0] if state != "resolving-offsets" else OFFSET_EARLIEST
+        start = offs[0] if state not in ("resolving-offsets", "offset-lookup-last-retry") else OFFSET_EARLIEST
         c.start(start).addBoth(on_res)
         if state == "resolving-offsets":
             pass
+        elif state == "offset-lookup-last-retry":
+            w.client.fail(pending("offset"), RequestTimedOutError("no reply"))
+            fire_next_timer(w.clock)
+            ctx.check(pending("offset") is not None and not w.res, "prefix-ok", "no retried offset lookup outstanding")
+        elif state == "fetch-last-retry":
+            w.client.fail(pending("fetch"), NotLeaderForPartitionError())
+            fire_next_timer(w.clock)
+            ctx.check(pending("fetch") is not None and not w.res, "prefix-ok", "no retried fetch outstanding")
         elif state == "fetching":
             pass
         elif state in ("processing-async", "reply-parked"):
